@@ -78,6 +78,8 @@ static Expansion toExp(char p) {
 	switch (p) { case 'z': return Expansion::zero; case 'o': return Expansion::one; case 's': return Expansion::sign; default: return Expansion::none; }
 }
 
+static std::string concretise(Rng &rng, const std::string &abs, bool full);
+
 struct Builder {
 	Rng &rng;
 	std::ostream &o;
@@ -87,6 +89,7 @@ struct Builder {
 	bool wide = true;
 	bool beyond = true;       // static shift/rotate amounts larger than the width are generated
 	bool tristate = false;    // tristate / bidirectional pins are generated (C08 DAG modes)
+	bool xconst = false;      // operators meeting partly undefined constants in the shapes the no-op / folding passes look at (C08 conc modes)
 	unsigned ctlInv = 6;      // one in `ctlInv` control operands is routed through an inverting gate (0 = never)
 	int maxDepth = 6;
 
@@ -146,6 +149,87 @@ struct Builder {
 		else { v->v = std::make_unique<BVec>(sig); v->w = v->v->size(); rp = v->v->readPort(); }
 		v->port = rp; v->pol = polChar(rp.expansionPolicy);
 		return pushVal(std::move(v));
+	}
+
+	// a literal operand with the given bits (MSB first, x = undefined)
+	int litLeaf(char t, size_t w, const std::string &bits) {
+		int idx;
+		std::string lit = std::to_string(w) + "b" + (bits == "-" ? std::string() : bits);
+		switch (t) {
+			case 'b': { Bit x(bits[0]); idx = push(x, 'b', 0); } break;
+			case 'u': { UInt x = UInt(lit.c_str()); idx = push(x, 'u', 0); } break;
+			case 's': { SInt x = SInt(lit.c_str()); idx = push(x, 's', 0); } break;
+			default:  { BVec x = BVec(lit.c_str()); idx = push(x, 'v', 0); } break;
+		}
+		vals[idx]->lit = bits;
+		o << "v " << idx << " lit " << t << ' ' << w << ' ' << bits << " -> " << vals[idx]->t << ' ' << vals[idx]->w << ' ' << vals[idx]->pol << '\n';
+		return idx;
+	}
+
+	// a partly undefined constant: defined bits all 0 / all 1 / a small value / random, 1..3 (or many) undefined bits
+	std::string xconstBits(size_t w) {
+		std::string r;
+		switch (rng.below(5)) { case 0: case 1: r.assign(w, '0'); break; case 2: r.assign(w, '1'); break; case 3: r = genBits(w, 5); break; default: r = genBits(w, 9); }
+		if (rng.chance(1, 5)) { for (auto &c : r) if (rng.chance(1, 2)) c = 'x'; }
+		else { size_t k = 1 + rng.below(3); for (size_t i = 0; i < k; i++) r[rng.below(w)] = 'x'; }
+		if (w > 1 && r.find_first_not_of('x') == std::string::npos) r[rng.below(w)] = rng.chance(1, 2) ? '1' : '0';
+		return r;
+	}
+
+	// the shapes constant folding / no-op removal look at, with a partly undefined constant in the constant's place
+	int genXConst(bool dag) {
+		char t = pickVecType();
+		size_t w = wide && rng.chance(1, 3) ? genWidth(1, 200) : rng.range(1, 9);
+		int A = operand(t, dag, w);
+		switch (rng.below(10)) {
+			case 0: case 1: case 2: case 3: { // bitwise with the constant on either side
+				static const std::vector<std::string> ops = {"and","or","xor","nand","nor","xnor","or","and"};
+				int C = litLeaf(t, w, xconstBits(w));
+				std::string name = rng.pick(ops) + ".nn";
+				return rng.chance(1, 2) ? apply(name, {A, C}) : apply(name, {C, A});
+			}
+			case 4: { // arithmetic / comparison with the constant
+				if (t == 'v') return apply("eq.nn", {A, litLeaf(t, w, xconstBits(w))});
+				static const std::vector<std::string> ops = {"add","sub","mul","eq","neq"};
+				int C = litLeaf(t, w, xconstBits(w));
+				std::string name = rng.pick(ops) + ".nn";
+				return rng.chance(1, 2) ? apply(name, {A, C}) : apply(name, {C, A});
+			}
+			case 5: { // multiplexer with equal inputs (same value twice / equal constants), selector possibly undefined
+				int sel = ctl(operand('b', dag), dag);
+				if (failed) return -1;
+				if (rng.chance(1, 2)) return apply("mux", {sel, A, A});
+				std::string bits = xconstBits(w);
+				int C1 = litLeaf(t, w, bits), C2 = litLeaf(t, w, rng.chance(1, 2) ? bits : concretise(rng, bits, false));
+				return apply("mux", {sel, C1, C2});
+			}
+			case 6: { // multiplexer with a partly undefined constant selector
+				size_t ws = rng.range(1, 2);
+				int sel = litLeaf('u', ws, xconstBits(ws));
+				std::vector<int> a{sel};
+				for (size_t i = 0; i < (size_t(1) << ws); i++) a.push_back(rng.chance(1, 2) ? A : operand(t, dag, w));
+				return apply("mux", a);
+			}
+			case 7: { // identity shifts: static amount 0, dynamic amount a constant whose defined bits are 0
+				if (rng.chance(1, 2)) { static const std::vector<std::string> ops = {"shl","shr","rotr"}; return apply(rng.pick(ops), {litLeaf(t, w, xconstBits(w))}, {0}); }
+				static const std::vector<std::string> ops = {"zshl","oshl","sshl","zshr","oshr","sshr","drotl","drotr"};
+				size_t wa = rng.range(1, 4);
+				std::string bits(wa, '0'); bits[rng.below(wa)] = 'x';
+				return apply(rng.pick(ops), {A, litLeaf('u', wa, bits)});
+			}
+			case 8: { // broadcast bit / not / slices of the constant
+				int C = litLeaf(t, w, xconstBits(w));
+				if (rng.chance(1, 3)) return apply("not", {C});
+				if (rng.chance(1, 2)) { static const std::vector<std::string> ops = {"vand","vor","vxor"}; return apply(rng.pick(ops), {C, operand('b', dag)}); }
+				size_t sw = rng.range(1, w); return apply("slice", {C}, {rng.below(w - sw + 1), sw});
+			}
+			default: { // priority select / IF with a constant value
+				int c = ctl(operand('b', dag), dag);
+				if (failed) return -1;
+				int C = litLeaf(t, w, xconstBits(w));
+				return rng.chance(1, 2) ? apply("prio", {A, c, C}) : apply("prio", {C, c, A});
+			}
+		}
 	}
 
 	// a fresh operand: input pin (or a literal in const mode)
@@ -607,6 +691,7 @@ struct Builder {
 	int genOp(bool dag, bool allowMalformed) {
 		if (!constMode && rng.chance(1, dag ? 7 : 14)) return rng.chance(2, 3) ? genIfChain(dag) : genIfPrio(dag);
 		if (rng.chance(1, 12)) return genPolicyUse(dag);
+		if (xconst && rng.chance(1, 5)) return genXConst(dag);
 		if (tristate && rng.chance(1, 7)) {
 			char t = "busv"[rng.below(4)];
 			int D = operand(t, dag, t == 'b' ? 1 : genWidth(1, 200));
@@ -892,10 +977,14 @@ static void runCase(uint64_t caseSeed, size_t id, const std::string &mode, size_
 	DesignScope design;
 	Builder b(rng, o);
 	bool conc = mode == "conc" || mode == "concw";
-	b.tristate = conc;
-	if (conc) b.ctlInv = 3;
 	// one in three DAG cases is simulated a second time after design.postprocess() on the same stimuli (users simulate post-processed designs)
-	bool post = (mode == "dag" || mode == "dags") && rng.chance(1, 3);
+	// C08 conc modes: one case in two is also simulated after post-processing (default, one in four of these minimal), abstract
+	// stimulus and concretisations; the driver compares with the as-constructed netlist under concretised constants
+	bool post = (mode == "dag" || mode == "dags") ? rng.chance(1, 3) : conc ? rng.chance(1, 2) : false;
+	bool minimalPost = conc && post && rng.chance(1, 4);
+	b.tristate = conc && !post; // the pad of a tristate pin is not driven in the post-processed re-simulation
+	b.xconst = conc;
+	if (conc) b.ctlInv = 3;
 	b.constMode = mode == "const";
 	b.wide = !(mode == "conc") && !(mode == "dags");
 	b.beyond = !conc && !b.constMode;
@@ -1028,9 +1117,9 @@ static void runCase(uint64_t caseSeed, size_t id, const std::string &mode, size_
 	}
 	if (post && simOk) {
 		// the same design after post-processing, the same stimuli: only the tapped values are observable (net.order is stale now)
-		o << "post\n";
+		o << "post" << (minimalPost ? " minimal" : "") << '\n';
 		bool ok = true;
-		try { design.postprocess(); }
+		try { if (minimalPost) design.getCircuit().postprocess(hlim::MinimalPostprocessing{}); else design.postprocess(); }
 		catch (const std::exception &e) { std::string m = e.what(); for (auto &c : m) if (c == '\n') c = ' '; o << "posterr " << m.substr(0, 200) << '\n'; ok = false; }
 		if (ok) {
 			try {
